@@ -34,7 +34,8 @@ TRUSTED = [
     "a message readable exactly at a deadline is taken as readable (for a reply the outcome is the same either way, "
     "since `expired` uses >=); one thread drives the connection (thread hand-off is C13/C14)",
     "not modelled: rpyc.lib.compat.PollingPoll.poll converts the remaining time with `if timeout: timeout = 1000*timeout` "
-    "(a sub-millisecond timeleft becomes a zero-length poll: the wait loop spins until the deadline instead of sleeping); "
+    "(what a sub-millisecond timeleft does there is not modelled); a foreign reply has zero duration in the model: a slow "
+    "callback of ANOTHER result delays a timeout without any request being served (verified on the real code); "
     "`Timeout` built from NaN (infinite) or +inf (finite, never expires); `set_expiry(Timeout(...))` sharing a deadline object",
 ]
 ASSUMPTIONS = [
@@ -50,6 +51,11 @@ ASSUMPTIONS = [
     "reply had already been discarded it can then never complete (`X1 C1 T1 AF7 XN x r w` waits for ever).  The theorems "
     "state expiry-is-final for as long as the expiry is not re-armed; the oracle holds re-armed results to finality and "
     "skips exactly that signature; readiness-is-final is unconditional",
+    "PROBED, NOT CLAIMED: the error of a raising user callback is re-raised out of `__call__` into whichever call is "
+    "serving the connection (Gen.Async.callbackErrorPropagates, measured, no obligation): an unrelated synchronous call "
+    "then raises the callback's error and loses its own reply, a BgServingThread dies and later results never become "
+    "ready - pre-existing behaviour (identical before fix 5a9cd90), caused by misbehaving user code; reproducer "
+    "fixes/probe_C15_raising_callback_surfaces_in_serving_call.py",
     "callbacks of the single-request worlds return normally; `__call__` with raising / re-entrant callbacks is `callR`, whose "
     "loop is measured on the source (Gen.Async.callbacksAllRun): obligation callbacks_all_run + theorem C15_callbacks (every "
     "callback runs exactly once, in order, raising ones included; the first error is re-raised after the loop).  A "
@@ -121,14 +127,30 @@ class Watchdog:
         atexit.register(lambda: signal.setitimer(signal.ITIMER_REAL, 0))
         cls.installed = True
 
+    depth = 0
+
     @classmethod
     def enter(cls):
         cls.progress += 1
+        cls.depth += 1
         cls.inside = True
 
     @classmethod
     def leave(cls):
-        cls.inside = False
+        cls.depth = max(0, cls.depth - 1)
+        cls.inside = cls.depth > 0
+
+
+class under_bound:
+    """`with under_bound():` - the real-code calls inside run under the watchdog (Blocked is raised out of the block)"""
+
+    def __enter__(self):
+        Watchdog.install()
+        Watchdog.enter()
+
+    def __exit__(self, *exc):
+        Watchdog.leave()
+        return False
 
 
 def guarded_call(fn):
@@ -265,7 +287,8 @@ class Sim:
         self.saved_time = rpyc.lib.time
         rpyc.lib.time = self.clock
         self.chan = ScriptChannel(self)
-        self.conn = VoidService()._connect(self.chan, {})
+        with under_bound():
+            self.conn = VoidService()._connect(self.chan, {})
         self.cblog = []
         self.busy = []
         self.reply_times = []
@@ -278,7 +301,8 @@ class Sim:
         self.proxy = None
         lab, self.sleeper_id = self.conn._box(self._sleeper)
         if first_request:
-            self.res = self.conn.async_request(consts.HANDLE_PING, "x")
+            with under_bound():
+                self.res = self.conn.async_request(consts.HANDLE_PING, "x")
 
     def now_ticks(self):
         return self.clock.now / self.unit
@@ -587,7 +611,9 @@ class MultiSim(Sim):
 
     def apply(self, tok):
         if tok[0] == "Q":
-            self.results.append(self.conn.async_request(self.consts.HANDLE_PING, "x", timeout=self.secs(parse_tau(tok[1:]))))
+            with under_bound():
+                self.results.append(self.conn.async_request(self.consts.HANDLE_PING, "x",
+                                                            timeout=self.secs(parse_tau(tok[1:]))))
             self.logs.append([])
             self.ras.append(None)
             out = "-@%s" % fmt_t(self.now_ticks())
@@ -599,7 +625,8 @@ class MultiSim(Sim):
             self.focus, self.res, self.cblog = k, self.results[k], self.logs[k]
             try:
                 if inner[0] == "C":
-                    self.res.add_callback(CB(int(inner[1:]), self, self.logs[k], self.res))
+                    with under_bound():
+                        self.res.add_callback(CB(int(inner[1:]), self, self.logs[k], self.res))
                     out = "-@%s" % fmt_t(self.now_ticks())
                 else:
                     out = Sim.apply(self, inner)
@@ -1137,6 +1164,17 @@ def run_scenario_simnet(kind, tau, pre, k, post, ops):
     return out
 
 
+def bounded_scenario(fn, *args):
+    """a whole-connection scenario with every real-code call in it (connection set-up, attribute look-ups, timed calls,
+    tear-down) under the watchdog"""
+    try:
+        with under_bound():
+            return fn(*args)
+    except Blocked:
+        Watchdog.depth, Watchdog.inside = 0, False
+        return ["BLOCKED"]
+
+
 def reuse_scenarios():
     """whole-connection runs of requests issued late / repeatedly: a timed() wrapper made at t0 and called twice after
     delays, async_request(timeout=) twice, sync_request on a connection older than its timeout.  steps:
@@ -1468,12 +1506,12 @@ def correspondence(ctx):
         for (kind, tau, pre, k, post, ops) in scen:
             toks = scenario_tokens(kind, tau, pre, k, post, ops)
             scen_lines.append("async run 0 " + " ".join(toks))
-            scen_impl.append(run_scenario_simnet(kind, tau, pre, k, post, ops))
+            scen_impl.append(bounded_scenario(run_scenario_simnet, kind, tau, pre, k, post, ops))
             c.count("simnet:" + kind)
         outs = run_driver(scen_lines, exe="drv_async")
         reuse = reuse_scenarios()
         reuse_toks = [reuse_tokens_of(st) for st in reuse]
-        reuse_impl = [run_reuse_simnet(st) for st in reuse]
+        reuse_impl = [bounded_scenario(run_reuse_simnet, st) for st in reuse]
         reuse_outs = run_driver(["async run 0 " + " ".join(t) for t, _seen in reuse_toks], exe="drv_async")
     except DriverError as ex:
         c.error = str(ex)
@@ -1549,6 +1587,7 @@ def _oracle_sequence(t0, toks, tolerate_rearm, state):
                 # a fresh request: its result is judged on its own, and by the statement it expires at ITS OWN issue
                 # instant + timeout, however old the connection or the timed() wrapper is
                 deadline, outcome, registered, arrival_at, first_reply_seen = None, None, [], None, False
+                rearmed = state["rearmed"] = False      # a fresh request: what was done to the previous result is over
                 log0 = 0               # (the harness starts a new log for a new result)
                 tau = wrapper_tau if c == "K" else parse_tau(tok[1:])
                 dl_at_call = sim.clock.now + tau if tau is not None and tau >= 0 else None
@@ -1702,14 +1741,14 @@ def _oracle_sequence(t0, toks, tolerate_rearm, state):
         sim.close()
 
 
-def oracle_multi(toks):
+def oracle_multi(toks, tolerate_rearm=False):
     """the statement, request by request, on a history with several live requests: a request's own reply decides it iff
     it is dispatched while the request is pending and before the deadline then in force; callbacks once, in order, at
     that instant (or at registration, if later); waiting never raises the timeout error before the deadline.  Replies
     carrying another request's number must make no difference."""
     sim = MultiSim(0)
     try:
-        dls, regs, decided, arrival = [], [], [], []
+        dls, regs, decided, arrival, rearmed = [], [], [], [], []
         for i, tok in enumerate(toks):
             t_before = sim.now_ticks()
             n_replies = len(sim.reply_times)
@@ -1727,12 +1766,16 @@ def oracle_multi(toks):
                 regs.append([])
                 decided.append(None)
                 arrival.append(None)
+                rearmed.append(False)
             elif tok[0].isdigit():
                 k, inner = tok.split(".", 1)
                 k = int(k)
                 if inner[0] == "X":
                     tau = parse_tau(inner[1:])
-                    dls[k] = t_before + tau if tau is not None and tau >= 0 else None
+                    if decided[k] is None and dls[k] is not None and t_before >= dls[k] and not tolerate_rearm:
+                        decided[k], rearmed[k] = False, True     # "that outcome is final": expired stays expired
+                    else:
+                        dls[k] = t_before + tau if tau is not None and tau >= 0 else None
                 elif inner[0] == "C":
                     regs[k].append((int(inner[1:]), t_before))
                 elif inner[0] in "vw":
@@ -1742,13 +1785,14 @@ def oracle_multi(toks):
                         return "event %d (%s): returned %s while not ready" % (i, tok, obs)
         for k, r in enumerate(sim.results):
             want_ready = bool(decided[k])
+            tag = "[%s: set_expiry was called after the expiry had passed] " % REARM_SIG if rearmed[k] else ""
             if bool(r._is_ready) != want_ready:
-                return "request %d: ready is %s; its reply was dispatched at %s, expiry then in force decided %s" % (
-                    k, r._is_ready, arrival[k], decided[k])
+                return "request %d: %sready is %s; its reply was dispatched at %s, expiry then in force decided %s" % (
+                    k, tag, r._is_ready, arrival[k], decided[k])
             want_log = [(cid, max(t, arrival[k])) for cid, t in regs[k]] if want_ready else []
             got_log = [(cid, t) for cid, t, _ok in sim.logs[k]]
             if got_log != want_log:
-                return "request %d: callbacks ran as %r, the statement requires %r" % (k, got_log, want_log)
+                return "request %d: %scallbacks ran as %r, the statement requires %r" % (k, tag, got_log, want_log)
         return None
     finally:
         sim.close()
@@ -1820,7 +1864,10 @@ def signature_of(msg):
     if REARM_SIG in msg:
         return REARM_SIG
     m = msg.split("): ", 1)[-1]
-    for key in ("blocked for ever", "interval was over", "later than the interval", "dropped its reference", "raised", "before the expiry", "not accepted", "callbacks", "callback", "changed", "became ready", "timeout raised",
+    if "; an operation on a result only ever returns" in m or m.startswith("raised "):
+        return "c15:foreign-exception"
+    for key in ("blocked for ever", "interval was over", "later than the interval", "dropped its reference",
+                "timeout raised", "timeout error without", "before the expiry", "not accepted", "callbacks", "callback", "changed", "became ready", "timeout raised",
                 "timeout error without", "while pending", "expired result", "ready result", "sync_request"):
         if key in m:
             return "c15:" + key.replace(" ", "-")
@@ -1880,6 +1927,8 @@ def oracle_search(ctx, corr, broken):
     for toks in multi_corpus() + [gen_multi(rm) for _ in range(3000)]:
         try:
             msg = oracle_multi(toks)
+            if msg and REARM_SIG in msg and REARM_SIG in known:
+                msg = oracle_multi(toks, tolerate_rearm=True)
         except BadSequence:
             msg = None
         if msg:
@@ -1909,15 +1958,18 @@ def oracle_search(ctx, corr, broken):
 
 
 def known_probes(ctx):
-    """defects the model carries faithfully and known_findings.json lists: reproduced on the real code on every run"""
+    """defects the model carries faithfully and known_findings.json lists, reproduced on the real code on every run.  The
+    two halves of the re-arm finding are probed and reported separately (one line each while it reproduces)."""
     a = run_impl(0, "X1 T1 x X5 x T1 AF7 v".split())
     b = run_impl(0, "X1 C1 T1 AF7 XN x r w".split())
     revived = a.startswith("-@0 -@1 T@1 -@1 F@1 -@2 -@2 val:7@2 ")
     stranded = b.startswith("-@0 -@0 -@1 -@1 -@1 F@1 F@1 HANG@1 ") and " log[] " in b
-    text = ("%s set_expiry on an expired AsyncResult revives it: `X1 T1 x X5 x T1 AF7 v` -> %s ; and a result re-armed after "
-            "its reply was discarded is pending for ever: `X1 C1 T1 AF7 XN x r w` -> %s" % (
-                REARM_SIG, a.split(" st ")[0], b.split(" st ")[0]))
-    return [(REARM_SIG, revived and stranded, text)]
+    return [
+        (REARM_SIG, revived, "%s (1/2) set_expiry on an expired AsyncResult revives it: `X1 T1 x X5 x T1 AF7 v` -> %s" % (
+            REARM_SIG, a.split(" st ")[0])),
+        (REARM_SIG, stranded, "%s (2/2) a result re-armed after its reply was discarded is pending for ever, its callback never "
+                              "runs: `X1 C1 T1 AF7 XN x r w` -> %s" % (REARM_SIG, b.split(" st ")[0])),
+    ]
 
 
 def replay(case):
